@@ -11,6 +11,7 @@ import OpmVerif.Proofs.RawConsts
 import OpmVerif.Proofs.KwRoundTrip
 import OpmVerif.Proofs.DeckRoundTrip
 import OpmVerif.Proofs.TokCheck
+import OpmVerif.Proofs.SiColumns
 
 namespace OpmVerif.Props.C19
 open OpmVerif.Lex OpmVerif.Tok OpmVerif.Scan OpmVerif.DeckWrite OpmVerif.RawKw
@@ -450,6 +451,17 @@ example : deckText idFmt (flushOf 2) demoDeck =
 
 example : parseDeckText OpmVerif.DeckIO.conv deckTable (fun n => (lookup deckTable n).isSome) (fun _ _ => none) 7
     (deckText idFmt (flushOf 2) demoDeck) = some (demoDeck.map (DK.result idFmt)) := by decide +kernel
+
+/-- `DeckItem::write` on an item whose SI data were requested before (TableManager,
+EclipseState, Schedule construction): the storage is converted back column by column with
+`dim[i % ndim]` — over an exact field `fromSI ∘ toSI = id` for every number of columns and
+every list of values (the `example` in `Proofs/SiColumns.lean`: converting back with the first
+dimension only does not).  The floating point side is what property mode compares
+(`roundtrip_after_si`). -/
+theorem si_roundtrip_columnwise (dims : List OpmVerif.SiColumns.Dim) (d0 : OpmVerif.SiColumns.Dim)
+    (hd0 : d0.factor ≠ 0) (h : ∀ d ∈ dims, d.factor ≠ 0) (vs : List Rat) (i : Nat) :
+    OpmVerif.SiColumns.fromSIAll dims d0 i (OpmVerif.SiColumns.toSIAll dims d0 i vs) = vs :=
+  OpmVerif.SiColumns.si_roundtrip_columnwise dims d0 hd0 h vs i
 
 end second_round
 
